@@ -517,9 +517,9 @@ fn apply_stch(face: &hb_font_t, buffer: &mut hb_buffer_t) {
 
             // Yay, justification!
 
-            let mut w_total = 0; // Total to be filled
-            let mut w_fixed = 0; // Sum of fixed tiles
-            let mut w_repeating = 0; // Sum of repeating tiles
+            let mut w_total: i32 = 0; // Total to be filled
+            let mut w_fixed: i32 = 0; // Sum of fixed tiles
+            let mut w_repeating: i32 = 0; // Sum of repeating tiles
             let mut n_repeating: i32 = 0;
 
             let end = i;
@@ -528,9 +528,9 @@ fn apply_stch(face: &hb_font_t, buffer: &mut hb_buffer_t) {
                 let width = face.glyph_h_advance(buffer.info[i].as_glyph()) as i32;
 
                 if buffer.info[i].arabic_shaping_action() == arabic_action_t::STRETCHING_FIXED {
-                    w_fixed += width;
+                    w_fixed = w_fixed.saturating_add(width);
                 } else {
-                    w_repeating += width;
+                    w_repeating = w_repeating.saturating_add(width);
                     n_repeating += 1;
                 }
             }
@@ -545,7 +545,7 @@ fn apply_stch(face: &hb_font_t, buffer: &mut hb_buffer_t) {
                     )))
             {
                 context -= 1;
-                w_total += buffer.pos[context].x_advance;
+                w_total = w_total.saturating_add(buffer.pos[context].x_advance);
             }
 
             i += 1; // Don't touch i again.
@@ -553,25 +553,28 @@ fn apply_stch(face: &hb_font_t, buffer: &mut hb_buffer_t) {
             // Number of additional times to repeat each repeating tile.
             let mut n_copies: i32 = 0;
 
-            let mut w_remaining = w_total - w_fixed;
+            let mut w_remaining = w_total.saturating_sub(w_fixed);
             if w_remaining > w_repeating && w_repeating > 0 {
                 n_copies = w_remaining / (w_repeating) - 1;
             }
 
             // See if we can improve the fit by adding an extra repeat and squeezing them together a bit.
             let mut extra_repeat_overlap = 0;
-            let shortfall = w_remaining - w_repeating * (n_copies + 1);
+            let shortfall = w_remaining.saturating_sub(w_repeating.saturating_mul(n_copies + 1));
             if shortfall > 0 && n_repeating > 0 {
                 n_copies += 1;
-                let excess = (n_copies + 1) * w_repeating - w_remaining;
+                let excess =
+                    i64::from(n_copies + 1) * i64::from(w_repeating) - i64::from(w_remaining);
                 if excess > 0 {
-                    extra_repeat_overlap = excess / (n_copies * n_repeating);
+                    extra_repeat_overlap =
+                        (excess / (i64::from(n_copies) * i64::from(n_repeating))) as i32;
                     w_remaining = 0;
                 }
             }
 
             if step == MEASURE {
-                extra_glyphs_needed += (n_copies * n_repeating) as usize;
+                extra_glyphs_needed = extra_glyphs_needed
+                    .saturating_add((n_copies as usize).saturating_mul(n_repeating as usize));
             } else {
                 buffer.unsafe_to_break(Some(context), Some(end));
                 let mut x_offset = w_remaining / 2;
@@ -617,7 +620,7 @@ fn apply_stch(face: &hb_font_t, buffer: &mut hb_buffer_t) {
         }
 
         if step == MEASURE {
-            if !buffer.ensure(buffer.len + extra_glyphs_needed) {
+            if !buffer.ensure(buffer.len.saturating_add(extra_glyphs_needed)) {
                 break;
             }
         } else {
